@@ -51,6 +51,41 @@ func checkC17(c *core.Ctx, l *core.Ledger) {
 	if _, ok := reach[gen]; !ok {
 		l.Unk("FS-OWN", "anchor:reach", "", "gen.Generate is not reachable from main in the call graph")
 	}
+	// write helpers: unexported functions of gen.Generate's package whose every call site is in gen.Generate —
+	// the final write loop may live in one of them
+	writeHelper := map[*ssa.Function]*ssa.Call{}
+	core.Instrs(gen, func(in ssa.Instruction) {
+		call, ok := in.(*ssa.Call)
+		if !ok {
+			return
+		}
+		h := call.Call.StaticCallee()
+		if h == nil || h == gen || !core.InRepo(h) || h.Pkg != gen.Pkg || len(h.Blocks) == 0 {
+			return
+		}
+		hasFS := false
+		core.Instrs(h, func(i2 ssa.Instruction) {
+			if fsCall(i2) != "" {
+				hasFS = true
+			}
+		})
+		if !hasFS {
+			return
+		}
+		sites := 0
+		for _, s := range c.StaticCallSites(h) {
+			if c.IsTestFile(s.Pos()) {
+				continue
+			}
+			sites++
+			if s.Parent() != gen {
+				sites += 100
+			}
+		}
+		if sites == 1 {
+			writeHelper[h] = call
+		}
+	})
 	nfs := 0
 	for _, f := range core.SortedFuncs(reach) {
 		k := 0
@@ -62,7 +97,7 @@ func checkC17(c *core.Ctx, l *core.Ledger) {
 			k++
 			nfs++
 			key := fmt.Sprintf("%s:%s#%d", core.SSAName(f), n, k)
-			l.Check(f == gen, "FS-OWN", key, c.Rel(in.Pos()), "file-system mutation inside gen.Generate's final write loop", "file-system mutation outside gen.Generate, reachable from main: "+strings.Join(core.PathTo(reach, f), " "))
+			l.Check(f == gen || writeHelper[f] != nil, "FS-OWN", key, c.Rel(in.Pos()), "file-system mutation inside gen.Generate's final write loop", "file-system mutation outside gen.Generate, reachable from main: "+strings.Join(core.PathTo(reach, f), " "))
 		})
 	}
 	// the matcher is alive: the test-support package writes files too
@@ -79,11 +114,40 @@ func checkC17(c *core.Ctx, l *core.Ledger) {
 
 	// ---- WRITE-LAST
 	var fsSites []ssa.Instruction
+	via := map[ssa.Instruction]*ssa.Call{} // fs site in a write helper → the call in gen.Generate that runs it
 	core.Instrs(gen, func(in ssa.Instruction) {
 		if fsCall(in) != "" {
 			fsSites = append(fsSites, in)
 		}
+		if call, ok := in.(*ssa.Call); ok && call.Call.StaticCallee() != nil && writeHelper[call.Call.StaticCallee()] == call {
+			core.Instrs(call.Call.StaticCallee(), func(i2 ssa.Instruction) {
+				if fsCall(i2) != "" {
+					fsSites = append(fsSites, i2)
+					via[i2] = call
+				}
+			})
+		}
 	})
+	// inGen: the instruction of gen.Generate at which the site takes effect
+	inGen := func(s ssa.Instruction) ssa.Instruction {
+		if v := via[s]; v != nil {
+			return v
+		}
+		return s
+	}
+	// resolve: a parameter of a write helper stands for the argument gen.Generate passes
+	resolve := func(s ssa.Instruction, v ssa.Value) ssa.Value {
+		if call := via[s]; call != nil {
+			if p, isP := v.(*ssa.Parameter); isP {
+				for i, q := range call.Call.StaticCallee().Params {
+					if q == p && i < len(call.Call.Args) {
+						return call.Call.Args[i]
+					}
+				}
+			}
+		}
+		return v
+	}
 	isProducer := func(in ssa.Instruction) bool {
 		call, ok := in.(ssa.CallInstruction)
 		if !ok {
@@ -104,6 +168,9 @@ func checkC17(c *core.Ctx, l *core.Ledger) {
 	for i, s := range fsSites {
 		leak, path := core.PathAvoiding(s, nil, isProducer)
 		_ = path
+		if via[s] != nil && !leak {
+			leak, _ = core.PathAvoiding(via[s], nil, isProducer)
+		}
 		l.Check(!leak, "WRITE-LAST", fmt.Sprintf("gen.Generate:%s#%d", fsCall(s), i+1), c.Rel(s.Pos()), "no producing or fallible repository call is reachable after this write", "a repository call (generation, plugin request or merge) can run after files were already written: a later failure leaves partial output")
 	}
 	// and the write loop is the only place where the files map is read for writing: every
@@ -119,14 +186,15 @@ func checkC17(c *core.Ctx, l *core.Ledger) {
 			fmt.Fprintf(os.Stderr, "C17 fs arg %s: %s\n", fsCall(s), sym)
 		}
 		key := fmt.Sprintf("gen.Generate:%s#%d", fsCall(s), i+1)
-		joined, ok := confinedJoin(arg)
+		res := func(v ssa.Value) ssa.Value { return resolve(s, v) }
+		joined, ok := confinedJoin(arg, res)
 		switch fsCall(s) {
 		case "os.WriteFile":
 			l.Check(ok, "CONFINE", key, c.Rel(s.Pos()), "path = filepath.Join(o.OutputDir, <key of the files map>)", "written path is not filepath.Join(OutputDir, files-map key): "+sym)
 		case "os.MkdirAll":
 			okDir := false
 			if inner, isCall := arg.(*ssa.Call); isCall && core.IsCallTo(inner, "path/filepath", "Dir") {
-				joined, okDir = confinedJoin(inner.Call.Args[0])
+				joined, okDir = confinedJoin(inner.Call.Args[0], res)
 			}
 			l.Check(okDir, "CONFINE", key, c.Rel(s.Pos()), "directory = filepath.Dir(filepath.Join(o.OutputDir, <key>))", "created directory is not the parent of the confined path: "+sym)
 		default:
@@ -149,7 +217,7 @@ func checkC17(c *core.Ctx, l *core.Ledger) {
 		}
 		ok := len(edges) > 0 && len(fsSites) > 0
 		for _, s := range fsSites {
-			if !core.AllPathsThroughEdges(gen, s.Block(), edges) {
+			if !core.AllPathsThroughEdges(gen, inGen(s).Block(), edges) {
 				ok = false
 			}
 		}
@@ -395,7 +463,7 @@ func checkC17(c *core.Ctx, l *core.Ledger) {
 }
 
 // confinedJoin: v = filepath.Join(o.OutputDir, <key of a map range>).
-func confinedJoin(v ssa.Value) (*ssa.Call, bool) {
+func confinedJoin(v ssa.Value, resolve func(ssa.Value) ssa.Value) (*ssa.Call, bool) {
 	call, ok := v.(*ssa.Call)
 	if !ok || !core.IsCallTo(call, "path/filepath", "Join") {
 		return nil, false
@@ -427,7 +495,7 @@ func confinedJoin(v ssa.Value) (*ssa.Call, bool) {
 	if len(elems) != 2 {
 		return nil, false
 	}
-	if !strings.HasSuffix(core.Sym(elems[0]), ".OutputDir") {
+	if !strings.HasSuffix(core.Sym(resolve(elems[0])), ".OutputDir") {
 		return nil, false
 	}
 	rng := rangeKeyOf(elems[1])
